@@ -1,13 +1,22 @@
-/* C35 end-to-end harness (smpicxx, run under smpirun -np 2): messages between partially shared buffers in the three send modes.
- * script line:  <mode e|b|r> <sizeS> <nshS> (<b> <e>)* <offS> <sizeR> <nshR> (<b> <e>)* <offR> <nSend> <nRecv> <nsamp> <x>*
+/* C35 end-to-end harness (smpicxx, run under smpirun -np 2): messages between partially shared buffers in the three send
+ * modes, after HISTORIES of shared allocations and frees on each side (the layout of a buffer is found by smpi_is_shared in
+ * the table allocs_metadata, which is filled / emptied by SMPI_PARTIAL_SHARED_MALLOC / SMPI_SHARED_FREE).
+ * script line:  <mode e|b|r> <nopsS> <op>* <nopsR> <op>* <slotS> <offS> <slotR> <offR> <nSend> <nRecv> <nsamp> <x>*
+ *   op = M <slot> <size> <nsh> (<b> <e>)*    allocate into <slot>: SMPI_PARTIAL_SHARED_MALLOC(size, shared blocks) — nsh = 0: plain malloc
+ *      | F <slot>                            SMPI_SHARED_FREE (plain: free)
  *   e = MPI_Send (eager when nSend < smpi/send-is-detached-thresh), b = MPI_Bsend (detached), r = MPI_Ssend (rendezvous)
- * rank 0 allocates the send buffer with SMPI_PARTIAL_SHARED_MALLOC(sizeS, shared blocks), rank 1 the receive buffer; both fill
- * them (an allocation without shared block is plain malloc: ordinary memory); the message is bytes [offS, offS + nSend) of the first, received into [offR, offR + nRecv) of the second.
- * output (one line per item, prefixed with the case number):
- *   S <case> <what smpi_is_shared says about the send buffer: -1 | offset b e b e …>   V <case> <src byte at each sample>
- *   D <case> <same for the receive buffer>   B <case> <dst bytes before>   A <case> <dst bytes after>                      */
+ * rank 0 runs its operations (no MPI call in between: the other rank does not run), then rank 1 runs its own; both fill the
+ * slot used for the message; the message is bytes [offS, offS + nSend) of rank 0's slot <slotS>, received into
+ * [offR, offR + nRecv) of rank 1's slot <slotR>; then every live slot is freed.
+ * output, in execution order (both ranks live in one process), prefixed with the case number:
+ *   AM <case> <rank> <addr> <size> <nsh> (<b> <e>)*     a shared allocation returned <addr> (an INPUT of the model: the kernel chooses)
+ *   AF <case> <rank> <addr>                            SMPI_SHARED_FREE(addr) of a shared allocation
+ *   AP <case> <rank> <ptr> <answer>                    smpi_is_shared(ptr): -1 | offset b e b e …  (probes around every range this rank used)
+ *   S <case> <ptr> <answer>   V <case> <src byte at each sample>       the send buffer
+ *   D <case> <ptr> <answer>   B <case> <dst bytes before>   A <case> <dst bytes after>                                   */
 #include <mpi.h>
 #include <smpi/smpi.h>
+#include <cstdint>
 #include <cstdio>
 #include <cstdlib>
 #include <cstring>
@@ -18,17 +27,48 @@
 
 int smpi_is_shared(const void* ptr, std::vector<std::pair<size_t, size_t>>& private_blocks, size_t* offset);
 
-static void describe(const char* tag, int c, const void* p)
+static void answer(const void* p)
 {
   std::vector<std::pair<size_t, size_t>> pb;
   size_t off = 0;
   if (smpi_is_shared(p, pb, &off)) {
-    printf("%s %d %zu", tag, c, off);
+    printf(" %zu", off);
     for (auto const& [b, e] : pb)
       printf(" %zu %zu", b, e);
-    printf("\n");
   } else
-    printf("%s %d -1\n", tag, c);
+    printf(" -1");
+  printf("\n");
+}
+
+struct Op {
+  char kind;
+  int slot;
+  size_t size;
+  std::vector<size_t> sh;
+};
+struct Slot {
+  unsigned char* p = nullptr;
+  size_t size      = 0;
+  bool shared      = false;
+  bool live        = false;
+};
+
+static std::vector<Op> read_ops(std::istringstream& in)
+{
+  int n;
+  in >> n;
+  std::vector<Op> ops(n);
+  for (auto& o : ops) {
+    in >> o.kind >> o.slot;
+    if (o.kind == 'M') {
+      int nsh;
+      in >> o.size >> nsh;
+      o.sh.resize(2 * nsh);
+      for (auto& v : o.sh)
+        in >> v;
+    }
+  }
+  return ops;
 }
 
 int main(int argc, char** argv)
@@ -41,62 +81,112 @@ int main(int argc, char** argv)
     return 3;
   static char bsendbuf[1 << 21];
   MPI_Buffer_attach(bsendbuf, sizeof bsendbuf);
-  char* line    = (char*)malloc(1 << 16);
-  int c         = 0;
+  char* line = (char*)malloc(1 << 16);
+  int c      = 0;
   while (fgets(line, 1 << 16, f)) {
     std::istringstream in(line);
     std::string mode;
-    size_t sizeS, sizeR, offS, offR, nSend, nRecv;
-    int nshS, nshR, nsamp;
-    std::vector<size_t> shS, shR, xs;
-    if (!(in >> mode >> sizeS >> nshS))
+    if (!(in >> mode))
       continue;
-    shS.resize(2 * nshS);
-    for (auto& v : shS) in >> v;
-    in >> offS >> sizeR >> nshR;
-    shR.resize(2 * nshR);
-    for (auto& v : shR) in >> v;
-    in >> offR >> nSend >> nRecv >> nsamp;
-    xs.resize(nsamp);
-    for (auto& v : xs) in >> v;
-    unsigned char* buf = nullptr;
-    if (rank == 0) {
-      buf = nshS ? (unsigned char*)SMPI_PARTIAL_SHARED_MALLOC(sizeS, shS.data(), nshS) : (unsigned char*)malloc(sizeS);
-      for (size_t i = 0; i < sizeS; i++) buf[i] = (unsigned char)(i * 7 + 13 + c);
-    } else {
-      buf = nshR ? (unsigned char*)SMPI_PARTIAL_SHARED_MALLOC(sizeR, shR.data(), nshR) : (unsigned char*)malloc(sizeR);
-      for (size_t i = 0; i < sizeR; i++) buf[i] = (unsigned char)(i * 5 + 101 + c);
+    std::vector<Op> ops[2];
+    ops[0] = read_ops(in);
+    ops[1] = read_ops(in);
+    int slotS, slotR, nsamp;
+    size_t offS, offR, nSend, nRecv;
+    in >> slotS >> offS >> slotR >> offR >> nSend >> nRecv >> nsamp;
+    std::vector<size_t> xs(nsamp);
+    for (auto& v : xs)
+      in >> v;
+    std::vector<Slot> slots(8);
+    std::vector<std::pair<uintptr_t, size_t>> ranges; // every shared range this rank obtained in this case (live or freed)
+    auto probes = [&]() {
+      for (auto const& [base, size] : ranges)
+        for (uintptr_t p : {base - 1, base, base + 1, base + size / 2, base + size - 1, base + size}) {
+          printf("AP %d %d %zu", c, rank, (size_t)p);
+          answer((const void*)p);
+        }
+    };
+    auto release = [&](Slot& s) {
+      if (s.shared) {
+        printf("AF %d %d %zu\n", c, rank, (size_t)(uintptr_t)s.p);
+        SMPI_SHARED_FREE(s.p);
+      } else
+        free(s.p);
+      s.live = false;
+    };
+    for (int turn = 0; turn < 2; turn++) {
+      MPI_Barrier(MPI_COMM_WORLD);
+      if (turn != rank)
+        continue;
+      for (auto& o : ops[rank]) {
+        Slot& s = slots[o.slot];
+        if (o.kind == 'M') {
+          s.size   = o.size;
+          s.shared = not o.sh.empty();
+          s.live   = true;
+          if (s.shared) {
+            s.p = (unsigned char*)SMPI_PARTIAL_SHARED_MALLOC(o.size, o.sh.data(), (int)(o.sh.size() / 2));
+            printf("AM %d %d %zu %zu %zu", c, rank, (size_t)(uintptr_t)s.p, o.size, o.sh.size() / 2);
+            for (size_t v : o.sh)
+              printf(" %zu", v);
+            printf("\n");
+            ranges.emplace_back((uintptr_t)s.p, o.size);
+          } else
+            s.p = (unsigned char*)malloc(o.size);
+        } else if (s.live)
+          release(s);
+        probes();
+      }
+      fflush(stdout);
     }
+    unsigned char* buf = slots[rank == 0 ? slotS : slotR].p;
+    size_t bsize       = slots[rank == 0 ? slotS : slotR].size;
+    for (size_t i = 0; i < bsize; i++)
+      buf[i] = rank == 0 ? (unsigned char)(i * 7 + 13 + c) : (unsigned char)(i * 5 + 101 + c);
     MPI_Barrier(MPI_COMM_WORLD);
     if (rank == 0) {
-      describe("S", c, buf + offS);
+      printf("S %d %zu", c, (size_t)(uintptr_t)(buf + offS));
+      answer(buf + offS);
       printf("V %d", c);
-      for (size_t x : xs) printf(" %d", x < nSend ? buf[offS + x] : 0);
+      for (size_t x : xs)
+        printf(" %d", x < nSend ? buf[offS + x] : 0);
       printf("\n");
     } else {
-      describe("D", c, buf + offR);
+      printf("D %d %zu", c, (size_t)(uintptr_t)(buf + offR));
+      answer(buf + offR);
       printf("B %d", c);
-      for (size_t x : xs) printf(" %d", buf[offR + x]);
+      for (size_t x : xs)
+        printf(" %d", buf[offR + x]);
       printf("\n");
     }
     fflush(stdout);
     MPI_Barrier(MPI_COMM_WORLD);
     if (rank == 0) {
-      if (mode == "e") MPI_Send(buf + offS, (int)nSend, MPI_BYTE, 1, c, MPI_COMM_WORLD);
-      else if (mode == "b") MPI_Bsend(buf + offS, (int)nSend, MPI_BYTE, 1, c, MPI_COMM_WORLD);
-      else MPI_Ssend(buf + offS, (int)nSend, MPI_BYTE, 1, c, MPI_COMM_WORLD);
+      if (mode == "e")
+        MPI_Send(buf + offS, (int)nSend, MPI_BYTE, 1, c, MPI_COMM_WORLD);
+      else if (mode == "b")
+        MPI_Bsend(buf + offS, (int)nSend, MPI_BYTE, 1, c, MPI_COMM_WORLD);
+      else
+        MPI_Ssend(buf + offS, (int)nSend, MPI_BYTE, 1, c, MPI_COMM_WORLD);
     } else {
       MPI_Recv(buf + offR, (int)nRecv, MPI_BYTE, 0, c, MPI_COMM_WORLD, MPI_STATUS_IGNORE);
       printf("A %d", c);
-      for (size_t x : xs) printf(" %d", buf[offR + x]);
+      for (size_t x : xs)
+        printf(" %d", buf[offR + x]);
       printf("\n");
       fflush(stdout);
     }
+    for (int turn = 0; turn < 2; turn++) {
+      MPI_Barrier(MPI_COMM_WORLD);
+      if (turn != rank)
+        continue;
+      for (auto& s : slots)
+        if (s.live)
+          release(s);
+      probes();
+      fflush(stdout);
+    }
     MPI_Barrier(MPI_COMM_WORLD);
-    if (rank == 0 ? nshS : nshR)
-      SMPI_SHARED_FREE(buf);
-    else
-      free(buf); // no shared block: ordinary memory (smpi_shared_malloc_partial reads shared_block_offsets[-1] for 0 blocks)
     c++;
   }
   fclose(f);
